@@ -97,7 +97,7 @@ func TestC15(t *testing.T) {
 				if err != nil {
 					return err
 				}
-				defer sess.Release()
+				defer func() { sess.Release() }()
 				g := func(k string) string {
 					if v, ok := sess.Get(k).(string); ok {
 						return v
@@ -120,6 +120,11 @@ func TestC15(t *testing.T) {
 						err = sess.Reset()
 					case "save":
 						err = sess.Save()
+					case "reget": // ask the store for the request's session again and go on with that object
+						sess.Release()
+						if sess, err = store.Get(c); err != nil {
+							return err
+						}
 					}
 					if err != nil {
 						return err
